@@ -397,3 +397,74 @@ def family_grouping():
         b.add(*fo)
         out.append({"tables": tables(), "pipe": b.pipe()})
     return out
+
+
+# ----------------------------------------------------------------------------------------- family N (invented names)
+def family_names():
+    """shapes in which a generated subquery must carry two columns of the same user-visible name: a hidden column
+    (overwritten, swapped by rename, or the right key of a join) read again through its old reference above an
+    alias(keep_col_refs=True) + subquery, next to the visible column that now has its name"""
+    def dup_overwrite_src(b):
+        old = b.here("a")
+        b.add(["mutate", [["a", fn("mul", C("a"), lit(10))]]])
+        return old, "a"
+
+    def dup_overwrite_computed(b):
+        b.add(["mutate", [["w", fn("add", C("a"), lit(1))]]])
+        old = b.here("w")
+        b.add(["mutate", [["w", fn("sub", C("b"), lit(1))]]])
+        return old, "w"
+
+    def dup_swap(b):
+        old = b.here("a")
+        b.add(["rename", [["a", "b"], ["b", "a"]]])       # old is now called b; C.a is the former b
+        return old, "a"
+
+    def dup_twice(b):
+        old = b.here("a")
+        b.add(["mutate", [["a", fn("add", C("a"), lit(1))]]], ["mutate", [["a", fn("add", C("a"), lit(1))]]])
+        return old, "a"
+
+    def force_slice(b):
+        b.add(["arrange", [o(C("id"))]], ["slice_head", 6, 0])
+
+    def force_window(b):
+        b.add(["mutate", [["rk", fn("row_number", arrange=[o(C("id"))])]]])
+
+    def force_summ(b):
+        return None          # placeholder: summarize would drop the hidden column
+
+    out = []
+    for dup, force, reader in itertools.product((dup_overwrite_src, dup_overwrite_computed, dup_swap, dup_twice),
+                                                (force_slice, force_window), ("verb", "mutate", "summarize", "arrange")):
+        b = B()
+        old, new = dup(b)
+        force(b)
+        b.add(["alias", True])
+        both = fn("less_than", old, C(new))
+        if reader == "verb":
+            b.add(["filter", [fn("bool_or", both, fn("is_null", C(new)))]])
+        else:
+            b.add(["filter", [fn("is_not_null", C("id"))]])          # needs the subquery; reads neither
+            if reader == "mutate":
+                b.add(["mutate", [["d", fn("sub", old, C(new))]]])
+            elif reader == "summarize":
+                b.add(["summarize", [["lo", fn("min", old)], ["hi", fn("max", C(new))]]])
+            else:
+                b.add(["arrange", [o(old, True, True), o(C(new), False, True), o(C("id"))]])
+        out.append({"tables": tables(), "pipe": b.pipe()})
+    # the hidden right key of a join, read again above the subquery
+    for how, reader in itertools.product(("inner", "left"), ("verb", "mutate")):
+        b = B()
+        r = B("R", "u")
+        r.add(["select", [["col", "R@0", "a"], ["col", "R@0", "c"]]])
+        b.add(["join", r.pipe(), [fn("equal", ["col", "P@0", "a"], ["col", "R@0", "a"])], how, None])
+        b.add(["mutate", [["rk", fn("row_number", arrange=[o(C("id")), o(C("c"))])]]], ["select", [C(n) for n in ("id", "a", "c", "rk")]],
+              ["alias", True])
+        both = fn("greater_equal", fn("add", C("rk"), ["col", "R@0", "a"]), ["col", "P@0", "a"])
+        if reader == "verb":
+            b.add(["filter", [fn("bool_or", both, fn("is_null", C("a")))]])
+        else:
+            b.add(["filter", [fn("greater_than", C("rk"), lit(0))]], ["mutate", [["d", fn("sub", ["col", "R@0", "a"], C("a"))]]])
+        out.append({"tables": tables(), "pipe": b.pipe()})
+    return out
